@@ -247,6 +247,11 @@ impl Prop for C04 {
             let _ = tok.tokenize(t, ign);
         }
         let _ = tok.de_tokenize(&[0, 1], false);
+        // a rejected call (ids outside the vocabulary after decodable ones) must not leave anything
+        // behind for the calls that follow
+        let far = size0 as u32 + 3;
+        let _ = tok.de_tokenize(&[far, 1], true);
+        let _ = tok.de_tokenize(&[1, 2, far], false);
         let vocab = match tok.get_vocab() {
             Ok(v) => v,
             Err(e) => {
@@ -310,6 +315,10 @@ impl Prop for C04 {
                 let back = tok.token_to_id(s);
                 ensure!(out, back == Some(id as u32), "token_to_id({s:?}) = {back:?}, expected {id}");
                 if id < nreg {
+                    if id % 7 == 3 {
+                        // a rejected call right before: decodable ids followed by one outside the vocabulary
+                        let _ = tok.de_tokenize(&[(id as u32 + 1) % nreg.max(1) as u32, (vs + 3) as u32], false);
+                    }
                     match tok.de_tokenize(&[id as u32], false) {
                         Ok(d) => ensure!(out, d == s, "de_tokenize([{id}]) = {d:?}, token is {s:?}"),
                         Err(e) => {
